@@ -24,6 +24,8 @@ func runC17(c *Ctx) {
 
 	ruleErrPassthrough(c)
 	ruleNoSMTPErrorMutation(c)
+	ruleNoReplyAfterClose(c)
+	ruleWriteDeadlineOwner(c) // a verdict that takes the backend longer than ReadTimeout is still written
 	// the error reported for a failed chunk is the one the pipe copy returned — the backend's own error comes back that
 	// way (r.CloseWithError) — and "unexpected EOF" stands in only when the copy returned none
 	R.Rule("R-chunk-error-kept", "E3 guard facts", "handleBdat replaces the chunk copy's error by io.ErrUnexpectedEOF only where that error is nil", 1)
@@ -377,4 +379,34 @@ func ruleClientParse(c *Ctx) {
 		})
 		R.Ob("toSMTPErr/strips the code from every further line", c.P.Pos(f.Pos()), ok, "client no longer strips the repeated enhanced code")
 	}
+}
+
+// ruleNoReplyAfterClose (C04, C17): a reply written after Conn.Close goes to a closed socket — writeResponse ignores
+// write errors, so it is lost silently. Every handler that closes the connection itself (failed drain, failed discard,
+// backend panic, QUIT, error threshold) must have written what it has to say before: in particular the backend's DATA
+// verdict on the path where the rest of the message could not be drained.
+func ruleNoReplyAfterClose(c *Ctx) {
+	R := c.R
+	R.Rule("R-no-reply-after-close", "E2 never-after", "in the command handlers no reply is written after the handler closed the connection (the reply would be lost: write errors are ignored)", 8)
+	n := 0
+	for _, f := range c.P.AllFuncs() {
+		fn := funcName(f)
+		if !inSmtp(f) || !strings.HasPrefix(fn, "(*Conn).") || fn == "(*Conn).Close" {
+			continue
+		}
+		n += c.obNever("no reply after Close", f,
+			func(in ssa.Instruction) bool {
+				if _, isDefer := in.(*ssa.Defer); isDefer {
+					return false
+				}
+				cc := callCommon(in)
+				if cc == nil {
+					return false
+				}
+				g := staticCallee(cc)
+				return g != nil && funcName(g) == "(*Conn).Close"
+			},
+			[]string{"reply"}, nil, nil)
+	}
+	R.Ob("handlers/direct Close calls found", "-", n >= 8, fmt.Sprintf("%d direct calls of Conn.Close found in Conn's methods", n))
 }
